@@ -1371,7 +1371,9 @@ func (w *responseWriter) close() {
 		w.WriteHeader(http.StatusOK)
 	}
 	if w.w != nil {
-		_, _ = w.w.Write(nil) // trigger any final writes
+		if !w.endWritten {
+			_, _ = w.w.Write(nil) // trigger any final writes
+		}
 		_ = w.w.Close()
 	}
 	if w.endWritten {
@@ -1588,7 +1590,7 @@ func (w *envelopingWriter) Close() error {
 		}
 		defer w.rw.op.bufferPool.Put(buf)
 	}
-	if w.remainingBytes == -1 && w.mustReleaseCurrent && w.err == nil {
+	if w.remainingBytes == -1 && w.mustReleaseCurrent && w.err == nil && !w.rw.endWritten {
 		length := buf.Len()
 		if limit := int(w.rw.op.methodConf.maxMsgBufferBytes); length > limit {
 			w.err = bufferLimitError(int64(limit))
@@ -1796,9 +1798,10 @@ func (w *transformingWriter) Write(data []byte) (n int, err error) {
 }
 
 func (w *transformingWriter) Close() error {
-	if w.err != nil {
-		// The response already ended (with an error, or with the end of the
-		// stream); nothing more may be written.
+	if w.err != nil || w.rw.endWritten {
+		// The response already ended (with an error, possibly one reported from
+		// the request side, or with the end of the stream); nothing more may be
+		// written.
 	} else if w.expectingBytes == -1 {
 		if err := w.flushMessage(); err != nil {
 			w.rw.reportError(err)
